@@ -18,6 +18,9 @@ model
         source map, whose buffer was filled with `push_str(buffer)`; positions are byte offsets into `big`
   ms.log <same arguments>   -> the pieces pushed, `<tag><text>` joined by `,` (`_` for none) | panic
         tags: v vertical spaces, b other fixed blanks, c comment, x code, l last snippet
+  ms.close <big> <buffer> <block_indent> <alignment> <lo> <hi> <unindent_comment> <cfg>
+        -> <buffer afterwards>:<line_number>:<block_indent>:<alignment> | panic
+        `close_block(mk_sp(lo, hi), unindent_comment)` on the same kind of visitor
   ms.width <text>           -> n                 `unicode_str_width` (see `msWidth`)
   ms.slice <text> <a> <b>   -> text | panic      `&text[a..b]`
   ms.lfcrlf <text>          -> <lf>:<crlf>       `count_lf_crlf`
@@ -27,6 +30,8 @@ oracles (judge what the real code wrote: `delta` = the buffer afterwards minus t
   ms.oracle.comments <snippet> <delta>      -> ok | bad   every comment slice is written, in order
   ms.oracle.only <snippet> <delta>          -> ok | bad   nothing but blanks and the comments is written
   ms.oracle.clamp <before> <delta> <upper>  -> ok | bad   runs of line breaks outside comments
+  ms.oracle.close <snippet> <delta>         -> ok | bad:<expected>   close_block: the non-blank characters
+        written are the comments, the code that is more than `;`, and the closing brace
 -/
 namespace RF.Driver.MissedSpans
 open RF.Proto RF.Missed RF.Shape
@@ -107,6 +112,19 @@ def handle (op : String) (args : List String) : Option String :=
         | some v =>
           if v.log.isEmpty then "_"
           else String.intercalate "," (v.log.map fun (p : Piece) => tagLetter p.tag ++ encChars p.text))).getD "?"
+  | "ms.close", [big, buffer, b, a, lo, hi, un, ht, ts, mw, cw, lower, up, ed] => some <| (do
+      let c ← decCall [big, "0", buffer, b, a, "0", "0", "0", ht, ts, mw, cw, lower, up, ed]
+      let lo ← lo.toNat?
+      let hi ← hi.toNat?
+      let un ← decBool un
+      pure (match closeBlock c.env lo hi un c.vis with
+        | none => "panic"
+        | some v =>
+          s!"{encChars v.buffer}:{v.lineNumber}:{v.blockIndent.block_indent}:{v.blockIndent.alignment}")).getD "?"
+  | "ms.oracle.close", [s, d] => some <| (do
+      let s ← decChars s
+      let d ← decChars d
+      pure (if closeContentOk s d then "ok" else "bad:" ++ encChars (closeContent s))).getD "?"
   | "ms.width", [t] => some <| (do
       let t ← decChars t
       pure (toString (msWidth t))).getD "?"
